@@ -486,7 +486,7 @@ func checkC08(c *runCtx) {
 		"GracefulClose from inside a callback is excluded by its documentation and not exercised")
 	p := newVTPool()
 	defer p.close()
-	dl := c01deadline(c, 200, 1500)
+	dl := c01deadline(c, 240, 1500)
 	dev := 2
 	if !c.quick() {
 		dev = 3
